@@ -44,6 +44,18 @@ theorem foldl_nodup {α : Type} (step : St V → α → St V) (hstep : ∀ st a,
   | nil => exact h
   | cons x xs ih => exact ih _ (hstep st x h)
 
+theorem dfItems_nodup (L : Legacy) (W : World V) (P : Parser V) (o : Opts V) (c : List Key)
+    (l : List (Key × Input V)) (acc : St V × List (Key × V)) (h : KeysNodup acc.1) :
+    KeysNodup (l.foldl (dfItemStep L W P o c) acc).1 := by
+  induction l generalizing acc with
+  | nil => exact h
+  | cons x xs ih =>
+    apply ih
+    unfold dfItemStep
+    split
+    · exact h
+    · exact provide_nodup _ _ _ _ _ _ _ h
+
 theorem dataFirst_nodup [DecidableEq V] (W : World V) (P : Parser V) (o : Opts V) (data : List (Key × V)) :
     KeysNodup (dataFirst {} W P o data) := by
   unfold dataFirst KeysNodup
@@ -54,9 +66,8 @@ theorem dataFirst_nodup [DecidableEq V] (W : World V) (P : Parser V) (o : Opts V
   · intro st kf h; split
     · exact h
     · exact absent_nodup _ _ _ _ h
-  · apply foldl_nodup
-    · intro st ni h; exact provide_nodup _ _ _ _ _ _ _ h
-    · simp [KeysNodup]
+  · apply dfItems_nodup
+    simp [KeysNodup]
 
 theorem fieldFirst_nodup [DecidableEq V] (W : World V) (P : Parser V) (o : Opts V) (data : List (Key × V)) :
     KeysNodup (fieldFirst {} W P o data) := by
